@@ -137,6 +137,11 @@ func (p *makefileParser) handleTarget(
 		Inputs:       annotation.Inputs,
 		Outputs:      annotation.Outputs,
 		Tags:         annotation.Tags,
+
+		Fingerprint:          annotation.Fingerprint,
+		EnvironmentVariables: annotation.EnvironmentVariables,
+		Timeout:              annotation.Timeout,
+		Platforms:            annotation.Platforms,
 	}
 
 	// Use the annotation's name as key if provided, otherwise use the target name.
